@@ -20,6 +20,7 @@ KERNELS = {'_find_interval', '_de_boor', '__make_design_matrix', '_numba_btb_bty
            '_quadratic_bezier_spline', '_interp_inplace', '_loess_solver'}
 # literal negative subscripts of the kernels (see coq/C05/Model.v, constructor CN)
 ALLOWED_NEG = {-1, -2}
+INT_PARAMS = {'_directional_min_moving_avg': (1, 2), '_determine_fits': (1, 2), '_rolling_std': (1, 2)}
 
 
 def make_data(N, xkind):
@@ -57,6 +58,12 @@ def install_trace():
         orig = getattr(mod, name)
 
         def wrapped(*args):
+            # numba types scalar parameters: an ndarray where the kernel computes with an integer makes the
+            # dispatch fail with TypingError before any compiled code runs (checked by the boundscheck workers)
+            if name in INT_PARAMS:
+                for pos in INT_PARAMS[name]:
+                    if pos < len(args) and isinstance(args[pos], np.ndarray):
+                        raise TypeError('numba TypingError (mimicked): ndarray passed for an integer parameter')
             g = dict(orig.__globals__)
             g['np'] = T.NpProxy([])
             import types
@@ -89,6 +96,17 @@ def install_trace():
     return bad
 
 
+def decode(kw, N):
+    out = {}
+    for k, v in kw.items():
+        if isinstance(v, dict) and '__seq__' in v:
+            vals = list(v['v'])
+            out[k] = {'list': vals, 'tuple': tuple(vals), 'array': np.array(vals, dtype=int)}[v['__seq__']]
+        else:
+            out[k] = v
+    return out
+
+
 def main():
     jobs = json.loads(sys.stdin.read())
     nojit = os.environ.get('NUMBA_DISABLE_JIT') == '1'
@@ -101,7 +119,13 @@ def main():
         try:
             with warnings.catch_warnings(), np.errstate(all='ignore'):
                 warnings.simplefilter('ignore')
-                getattr(Baseline(x), method)(y, **kw)
+                if method.startswith('F:'):
+                    import pybaselines.api  # noqa
+                    import importlib
+                    mod_name, fname = method[2:].split('.')
+                    getattr(importlib.import_module('pybaselines.' + mod_name), fname)(y, x_data=x, **decode(kw, N))
+                else:
+                    getattr(Baseline(x), method)(y, **decode(kw, N))
             out['status'] = 'ok'
         except IndexError as exc:
             if from_kernel(exc, nojit):
